@@ -46,7 +46,7 @@ def decode(fr):
         if struct.unpack('!H', p[6:8])[0] & 0x3fff: d['wf'].append('fragmented reply')
         if p[8] < 1: d['wf'].append('TTL 0')
         if not csum_ok(p[:ihl]): d['wf'].append('IPv4 header checksum invalid')
-        l4 = p[ihl:]
+        l4 = p[ihl:tot] if ihl <= tot <= len(p) else p[ihl:]   # trailing bytes behind the datagram are link-layer padding
         pseudo = p[12:20] + struct.pack('!BBH', 0, d['proto'], len(l4))
     elif d['ethertype'] == 0x86dd and len(p) >= 40:
         d['l3'] = 'ip6'
@@ -56,7 +56,7 @@ def decode(fr):
         if p[0] >> 4 != 6: d['wf'].append('IPv6 version != 6')
         if plen != len(p) - 40: d['wf'].append('IPv6 payload length %d != actual %d' % (plen, len(p) - 40))
         if p[7] < 1: d['wf'].append('hop limit 0')
-        l4 = p[40:]
+        l4 = p[40:40 + plen] if plen <= len(p) - 40 else p[40:]
         pseudo = p[8:40] + struct.pack('!IHBB', len(l4), 0, 0, d['proto'])
     else:
         return d
@@ -209,6 +209,25 @@ def scenarios(pid, cookie_of):
         for n in range(0, 29, 4):
             for c in (0, 1):
                 yield base, [icmp6(135, c, (b'\0\0\0\0' + socket.inet_pton(socket.AF_INET6, ME6) + b'\x01\x01' + R.mac(R.PEER))[:n])]
+    if pid in ('C05', 'C06', 'C19', 'C13', 'C14', 'C15', 'C16', 'C17', 'C18', 'C07'):
+        # the "is answered" direction through the lower layers: unicast ARP, padded minimum-size frames, odd TTLs / TOS,
+        # duplicate-address-detection probes, every port pair class
+        pad = b'\0' * 6
+        yield base, [R.eth(R.MAC, R.PEER, 0x0806, R.arp(1, R.PEER, PEER4, '00:00:00:00:00:00', ME4))]
+        yield base, [R.eth(R.MAC, R.PEER, 0x0806, R.arp(1, R.PEER, PEER4, '00:00:00:00:00:00', ME4)) + b'\0' * 18]
+        yield base, [e4(R.icmp(8, 0, struct.pack('!HH', 1, 2) + b'x'), 1) + pad]
+        yield base, [tcp4(SYN, seq=0xffffffff) + pad]
+        yield base, [tcp4(SYN, seq=7, sport=1, dport=1)]
+        yield base, [tcp4(SYN, seq=7, sport=65535, dport=65535)]
+        yield base, [tcp4(SYN, seq=7, sport=0, dport=0)]
+        yield base, [e6(R.tcp(40000, 80, 7, 0, SYN), 6)]
+        yield base, [e6(R.tcp(40000, 80, 7, 0, SYN), 6) + pad]
+        yield base, [icmp6(128, 0, struct.pack('!HH', 1, 2) + b'y') + pad]
+        for ttl in (1, 2, 255):
+            yield base, [e4(R.icmp(8, 0, struct.pack('!HH', 1, 2) + b'x'), 1, ttl=ttl)]
+            yield base, [e4(R.tcp(40000, 80, 7, 0, SYN), 6, ttl=ttl)]
+        yield {'self': ME6}, [R.eth('33:33:ff' + ''.join(':%02x' % b for b in socket.inet_pton(socket.AF_INET6, ME6)[13:]), R.PEER, 0x86dd, b'')
+                              + icmp6(135, 0, b'\0\0\0\0' + socket.inet_pton(socket.AF_INET6, ME6), src='::', dst='ff02::1:ff' + '%02x:%02x%02x' % tuple(socket.inet_pton(socket.AF_INET6, ME6)[13:]))[14:]]
     if pid in ('C06', 'C12', 'C03', 'C04', 'C19'):
         for fl in range(512):
             if not fl & SYN and pid == 'C06': continue
